@@ -33,7 +33,11 @@ ERASED = [
     ("into_iter_ref", "shared", "", "(&v).into_iter()", None),
     ("as_bytes", "shared", "", "v.as_bytes()", None),
     ("downcast_ref", "shared", "", "v.downcast_ref::<String>().unwrap()", None),
+    ("get_unchecked", "shared", "", "unsafe { v.get_unchecked(0) }", None),
+    ("downcast_ref_unchecked", "shared", "", "unsafe { v.downcast_ref_unchecked::<String>() }", None),
     ("at_mut", "excl", "", "v.at_mut(0)", None),
+    ("get_unchecked_mut", "excl", "", "unsafe { v.get_unchecked_mut(0) }", None),
+    ("downcast_mut_unchecked", "excl", "", "unsafe { v.downcast_mut_unchecked::<String>() }", None),
     ("get_mut", "excl", "", "v.get_mut(0).unwrap()", None),
     ("iter_mut", "excl", "", "v.iter_mut()", None),
     ("into_iter_mut", "excl", "", "(&mut v).into_iter()", None),
@@ -48,6 +52,7 @@ ERASED = [
 ]
 # handles obtained from a typed view `t` of `v`
 TYPED_REF = [("r.at", "r.at(0)"), ("r.get", "r.get(0).unwrap()"), ("r.iter", "r.iter()"), ("r.as_slice", "r.as_slice()"), ("r.into_iter", "r.clone().into_iter()")]
+TYPED_REF += [("r.clone", "r.clone()"), ("r.get_unchecked", "unsafe { r.get_unchecked(0) }")]
 TYPED_MUT_SHARED = [("t.at", "t.at(0)"), ("t.get", "t.get(0).unwrap()"), ("t.iter", "t.iter()"), ("t.as_slice", "t.as_slice()")]
 TYPED_MUT_EXCL = [("t.at_mut", "t.at_mut(0)"), ("t.get_mut", "t.get_mut(0).unwrap()"), ("t.iter_mut", "t.iter_mut()"), ("t.as_mut_slice", "t.as_mut_slice()"),
                   ("t.spare_capacity_mut", "t.spare_capacity_mut()"), ("t.drain", "t.drain(..)"), ("t.splice", "t.splice(.., [String::new()])")]
@@ -149,6 +154,12 @@ def programs():
     add("remove+swap_remove", "second-exclusive", "let mut v = mk();\nlet a = v.remove(0);\nlet b = v.swap_remove(0);\ntouch(&a);\ntouch(&b);", "let mut v = mk();\nlet a = v.remove(0);\ntouch(&a);\ndrop(a);\nlet b = v.swap_remove(0);\ntouch(&b);")
     add("drain+drain", "second-exclusive", "let mut v = mk();\nlet a = v.drain(0..1);\nlet b = v.drain(1..2);\ntouch(&a);\ntouch(&b);", "let mut v = mk();\nlet a = v.drain(0..1);\ntouch(&a);\ndrop(a);\nlet b = v.drain(0..1);\ntouch(&b);")
     add("splice+push", "mutate-source", "let mut v = mk();\nlet a = v.splice(0..1, [AnyValueWrapper::new(String::new())]);\nv.push(AnyValueWrapper::new(String::new()));\ntouch(&a);", "let mut v = mk();\nlet a = v.splice(0..1, [AnyValueWrapper::new(String::new())]);\ntouch(&a);\ndrop(a);\nv.push(AnyValueWrapper::new(String::new()));")
+    add("push(pop-of-self)", "second-exclusive", "let mut v = mk();\nlet h = v.pop().unwrap();\nv.push(h);", "let mut v = mk();\nlet mut w = mk();\nlet h = v.pop().unwrap();\nw.push(h);")
+    add("splice(replace-from-self)", "mutate-source", "let mut v = mk();\nlet d = v.splice(0..1, v.iter().map(|e| e.lazy_clone()));\ndrop(d);", "let mut v = mk();\nlet w = mk();\nlet d = v.splice(0..1, w.iter().map(|e| AnyValueWrapper::new(e.downcast_ref::<String>().unwrap().clone())));\ndrop(d);")
+    add("t.into_iter", "mutate-source", "let mut v = mk();\nlet t = v.downcast_mut::<String>().unwrap();\nlet h = t.into_iter();\nv.clear();\ntouch(&h);", "let mut v = mk();\nlet t = v.downcast_mut::<String>().unwrap();\nlet h = t.into_iter();\ntouch(&h);\ndrop(h);\nv.clear();")
+    add("t.into_iter", "escape-scope", "let h;\n{\n    let mut v = mk();\n    let t = v.downcast_mut::<String>().unwrap();\n    h = t.into_iter();\n}\ntouch(&h);", "{\n    let mut v = mk();\n    let t = v.downcast_mut::<String>().unwrap();\n    let h = t.into_iter();\n    touch(&h);\n}")
+    add("iter.item", "mutate-source", "let mut v = mk();\nlet mut it = v.iter();\nlet e = it.next().unwrap();\ndrop(it);\nv.clear();\ntouch(&e);", "let mut v = mk();\nlet mut it = v.iter();\nlet e = it.next().unwrap();\ndrop(it);\ntouch(&e);\ndrop(e);\nv.clear();")
+    add("splice.item", "outlives-iterator-source", "let mut v = mk();\nlet e;\n{\n    let mut d = v.splice(0..1, [AnyValueWrapper::new(String::new())]);\n    e = d.next().unwrap();\n}\nv.clear();\ntouch(&e);", "let mut v = mk();\n{\n    let mut d = v.splice(0..1, [AnyValueWrapper::new(String::new())]);\n    let e = d.next().unwrap();\n    touch(&e);\n}\nv.clear();")
     add("push(self-element)", "mutate-source", "let mut v = mk();\nlet e = v.at(0);\nv.push(e.lazy_clone());", "let mut v = mk();\nlet mut w = mk();\nlet e = v.at(0);\nw.push(e.lazy_clone());")
     return out
 
